@@ -111,6 +111,58 @@ func (f *Frame) ownOn() bool {
 	return rf.owns && f.vc.want("OWN")
 }
 
+// ownKinds: allocation kinds type-reachable from the root function's results.
+// A store into an object of another kind (a local index map, a scratch
+// slice) cannot make a pre-existing object reachable from the result.
+func (f *Frame) ownKinds() map[string]bool {
+	rf := f.rootFrame()
+	if rf.resKinds != nil {
+		return rf.resKinds
+	}
+	rf.resKinds = map[string]bool{}
+	seen := map[string]bool{}
+	var walk func(t types.Type)
+	walk = func(t types.Type) {
+		k := types.TypeString(t, nil)
+		if seen[k] {
+			return
+		}
+		seen[k] = true
+		switch u := t.Underlying().(type) {
+		case *types.Pointer:
+			rf.resKinds[kindOfPtr(t)] = true
+			walk(u.Elem())
+		case *types.Slice:
+			rf.resKinds["E|"+typeKey(u.Elem())] = true
+			walk(u.Elem())
+		case *types.Array:
+			walk(u.Elem())
+		case *types.Map:
+			rf.resKinds["M|"+typeKey(t)] = true
+			walk(u.Key())
+			walk(u.Elem())
+		case *types.Struct:
+			for i := 0; i < u.NumFields(); i++ {
+				if !isProtoInternalField(u.Field(i)) {
+					walk(u.Field(i).Type())
+				}
+			}
+		case *types.Interface:
+			rf.resKinds["*"] = true // anything may hide behind an interface
+		}
+	}
+	res := rf.fn.Signature.Results()
+	for i := 0; i < res.Len(); i++ {
+		walk(res.At(i).Type())
+	}
+	return rf.resKinds
+}
+
+func (f *Frame) ownRelevant(kind string) bool {
+	ks := f.ownKinds()
+	return ks["*"] || ks[kind]
+}
+
 func isMutableRefLeaf(l Leaf) bool {
 	if !l.Ref {
 		return false
@@ -139,14 +191,14 @@ func (f *Frame) ownCheck(st *State, loc *Loc, v Val, pos token.Pos, what string)
 		return
 	}
 	g := f.freshOrNilVal(v)
-	if g.S == "true" {
+	if g.S == "true" || !f.ownRelevant(loc.Root) {
 		return
 	}
 	f.oblige(st, "OWN", what+" into fresh "+loc.Root+loc.Path, pos, Imp(Ge(loc.Base, f.vc.A0), g))
 }
 
-func (f *Frame) ownCheckVal(st *State, target Term, v Val, pos token.Pos, what string) {
-	if !f.ownOn() {
+func (f *Frame) ownCheckVal(st *State, target Term, v Val, pos token.Pos, what string, kind string) {
+	if !f.ownOn() || !f.ownRelevant(kind) {
 		return
 	}
 	g := f.freshOrNilVal(v)
@@ -169,7 +221,7 @@ func (f *Frame) ownAppend(st *State, out, s, t Val, pos token.Pos) {
 			refLeaves = append(refLeaves, i)
 		}
 	}
-	if len(refLeaves) == 0 {
+	if len(refLeaves) == 0 || !f.ownRelevant("E|"+typeKey(el)) {
 		return
 	}
 	lay := layout(el)
